@@ -37,6 +37,21 @@ CLAIMS = {
     "C20": ("Proof, for all topologies and preferences, with loop invariants (quantified round-robin bookkeeping) on the real topology.NextReadEndpoint: a returned endpoint is never dead and is permitted by the read preference; 'no endpoint' is answered only when no live permitted endpoint existed (completeness, all five preferences); a returned secondary is the FIRST live one after the old cursor in cyclic order and the cursor moves onto it; all loops terminate (decreasing measures). callPrimary sends at most one request and only to the endpoint the topology names as primary, and its retry loop terminates; BackoffRequestRetrier.DoReq terminates within maxRetries+1 attempts.",
             "Not decided: callAny's termination (needs a cardinality measure over live endpoints); convergence on a new leader after discovery/redirect (liveness across requests).",
             "DESIGN.md section 4, C20"),
+    "C09": ("Narrow claim, proved on the real code: (leader side) the state-transfer filter built in RaftNode.FetchSnapshot refuses with an error every batch whose previous version lies beyond the follower's position (a gap), ships exactly the batches that continue the sequence and moves its position to where they end, never skips a continuation and never moves on a refusal; (follower side) RaftNode.Restore performs at most one transfer and, after it, re-derives everything it keeps in memory from the store: fsm state, balloon version and the hyper-tree cache (ghost bookkeeping: each of the three was last derived after the last LoadSnapshot). One genuine defect found (the hyper cache was never rebuilt after a transfer: a restored follower computed different hyper digests), demonstrated on the real balloon and fixed.",
+            "Not decided: that the replayed batches reproduce the leader's store (RocksDB WAL iteration and write-batch replay are outside the verifier's reach: rocksdb is cgo and does not build in the sandbox), equality of proofs/digests of the restored node with the leader's (needs the tree contracts), schedules/fault sequences. Assumes: decodeMsgPack decodes what encode wrote (probes), loadState/RefreshVersion/RebuildCache bookkeeping clauses (`assumes`), attemptToFetchSnapshot leaves n.state alone.",
+            "DESIGN.md section 4, C09"),
+    "C14": ("Proved per call on the real code. In-memory back end: keys of table t are stored under the one-byte prefix of t; Get/GetLast/GetRange/GetAll only return entries of the table asked for (callback-iteration invariants over the B-tree scan; two genuine leaks between tables found, replayed and fixed: GetLast and the reader behind GetAll/GetRange). Durable back end, relative to the assumed contract of the RocksDB wrapper: Mutate puts ALL mutations of a call, and the metadata, into ONE write batch handed over with ONE Write; Get reads the key in the column family of the table asked for.",
+            "Not decided: the sorted-map semantics of google/btree and of RocksDB themselves (assumed contracts in /verif/contracts/trusted), atomic visibility, durability across close/reopen (C engine), functional contracts of bplus GetRange bounds and Mutate. Nothing in storage/rocks can be replayed in the sandbox (cgo does not build).",
+            "DESIGN.md section 4, C14"),
+    "C15": ("Proved per call on the real code, relative to the assumed contract of the RocksDB wrapper: raftLog.StoreLog writes the entry under the 8-byte big-endian bytes of ITS index in the log table with one write; StoreLogs puts all entries in one batch / one write; GetLog looks up the big-endian bytes of the index asked for; DeleteRange removes the INCLUSIVE range [min,max] (half-open engine range, hence max+1, no overflow by precondition); FirstIndex/LastIndex seek to first/last and decode 8-byte keys without panicking; Set/Get/SetUint64/GetUint64 use the stable table under the caller's key, big-endian values.",
+            "Assumes: the wrapper contract (what PutCF/DeleteRangeCF/iterators do), msgpack encode/decode of raft.Log round-trips, the log table only holds 8-byte keys (stated as a precondition), persistence across close/reopen is RocksDB's. Failures cannot be replayed (cgo).",
+            "DESIGN.md section 4, C15"),
+    "C16": ("Narrow claim, proved per call on the real Go side of backups, relative to the assumed contract of the RocksDB backup engine: RocksDBStore.Backup asks for exactly one engine backup carrying the caller's metadata unchanged; DeleteBackup deletes exactly the named id; RestoreFromBackup passes the named id and the two directories in the right order; GetBackupsInfo lists EVERY backup the engine reports, field by field (quantified loop invariant); RaftNode.CreateBackup/DeleteBackup forward exactly one such request (for the named id); the management handlers are panic-free for all requests (a missing backupID is answered with 400: genuine defect found, replayed with httptest, fixed).",
+            "Not decided: that the restored database equals the log as of the backup's version and what the restored node proves/assigns afterwards (RocksDB backup engine, cgo; and tree contracts). Assumes the backup-engine contract in /verif/contracts/trusted.",
+            "DESIGN.md section 4, C16"),
+    "C17": ("Narrow claim, proved for ONE batcher run sequentially on the real code: Sender.doSign signs a snapshot exactly once (ghost counter on Signer.Sign) and returns it with its own signature; the batch never grows beyond the configured BatchSize (loop invariant of Sender.batcher); whatever the batcher publishes is a batch message carrying the configured TTL.",
+            "Not decided: 'exactly once / nothing lost or duplicated whatever the arrival pattern' across several batcher goroutines on one channel (Go channel semantics, schedules), and that the signature binds the content (ed25519, assumed). Signer and MessageBus.Publish are ghost-bookkeeping contracts.",
+            "DESIGN.md section 4, C17"),
 }
 
 NA = {
